@@ -71,7 +71,7 @@ def t_assess(E):
     E.refutable("dist.assess", E.eq(score, 0.0))
 
 
-@task("dist.generate", props=["C01", "C03", "C35", "C24", "C23"], functions=FUNCS)
+@task("dist.generate", props=["C01", "C02", "C03", "C35", "C24", "C23"], functions=FUNCS)
 def t_generate(E):
     z3 = E.z3
     T = E.I.T
@@ -90,7 +90,8 @@ def t_generate(E):
         present, val = z3.Not(isnone), UVal(cv, "value")
         arm = "plain"
     E.cover(f"dist.generate.{arm}")
-    E.prove("C01.Distribution.generate.wf", wf(E, d, tr))
+    # (C02: the recorded score is the log-density of the value the trace holds, constrained, masked-off or sampled)
+    E.prove("C01.Distribution.generate.wf", wf(E, d, tr), also=["C02"])
     E.prove("C03.Distribution.generate.agree", E.Implies(present, E.eq(E.method(tr, "get_retval"), val)))
     E.prove("C03.Distribution.generate.unconstrained_is_simulate_with_same_key",
             E.Implies(z3.Not(present), E.And(E.eq(E.method(tr, "get_retval"), sampled), E.eq(w, 0.0))))
@@ -113,7 +114,7 @@ def _argdiffs(E, old_args):
     return ad
 
 
-@task("dist.update", props=["C01", "C05", "C06", "C08", "C35", "C23"], functions=FUNCS)
+@task("dist.update", props=["C01", "C02", "C05", "C06", "C08", "C35", "C23"], functions=FUNCS)
 def t_update(E):
     z3 = E.z3
     T = E.I.T
@@ -131,7 +132,7 @@ def t_update(E):
         present, val = z3.Not(T.is_None(cv)), UVal(cv, "value")
     newval = UVal(z3.If(present, E.I.to_u(val), v0.t), "value")
     E.cover("dist.update.reached")
-    E.prove("C01.Distribution.edit_update.wf", wf(E, d, new))
+    E.prove("C01.Distribution.edit_update.wf", wf(E, d, new), also=["C02"])
     E.prove("C05.Distribution.edit_update.args", E.eq(E.method(new, "get_args"), a1))
     E.prove("C05.Distribution.edit_update.choices", E.eq(E.method(new, "get_retval"), newval))
     E.prove("C05.Distribution.edit_update.weight_is_score_change",
